@@ -56,7 +56,8 @@ def build_harness(race=False):
         shutil.copyfile(os.path.join(REPO, "go.sum"), os.path.join(hdir, "go.alt.sum"))
         modflag = ["-modfile=go.alt.mod"]
     os.makedirs(os.path.join(WORK, "bin"), exist_ok=True)
-    out = os.path.join(WORK, "bin", "replay" + ("-race" if race else ""))
+    suffix = "" if REPO == "/repo" else "-" + hashlib.md5(REPO.encode()).hexdigest()[:6]
+    out = os.path.join(WORK, "bin", "replay" + ("-race" if race else "") + suffix)
     cmd = [go_bin(), "build", "-tags", "verif"] + modflag
     if race:
         cmd += ["-race", "-gcflags=all=-d=checkptr=0"]
